@@ -62,7 +62,7 @@ Section Unfold.
     exec st ev active (XSubquery i s) inc = join inc (finalize_subquery s (exec st ev active i [[]])).
   Proof. intros active i s [|a r]; [reflexivity|]. cbn [exec]. apply nl_join_eq_join. Qed.
   Lemma exec_XBind : forall active i args v inc,
-    exec st ev active (XBind i args v) inc = map (bind_row args v) (exec st ev active i inc).
+    exec st ev active (XBind i args v) inc = flat_map (ebind args v) (exec st ev active i inc).
   Proof. intros active i args v [|a r]; [rewrite !exec_nil|]; reflexivity. Qed.
   Lemma exec_XValues : forall active vs rows inc,
     exec st ev active (XValues vs rows) inc = join inc (map (values_row vs) rows).
@@ -210,15 +210,17 @@ Proof.
 Qed.
 
 (* expressions depend only on the variables they mention *)
-Lemma cond_eval_ext : forall c m b, (forall x, In x (expr_vars c) -> lookup m x = lookup b x) -> cond_eval c m = cond_eval c b.
+Lemma cond_eval3_ext : forall c m b, (forall x, In x (expr_vars c) -> lookup m x = lookup b x) -> cond_eval3 c m = cond_eval3 c b.
 Proof.
-  induction c; intros m b H; cbn [cond_eval expr_vars] in *.
+  induction c; intros m b H; cbn [cond_eval3 expr_vars] in *.
   - rewrite (H l) by (left; auto). destruct r as [y|d]; auto.
     rewrite (H y) by (right; left; auto). reflexivity.
   - rewrite (IHc1 m b), (IHc2 m b); auto; intros; apply H; apply in_or_app; auto.
   - rewrite (IHc1 m b), (IHc2 m b); auto; intros; apply H; apply in_or_app; auto.
   - rewrite (IHc m b); auto.
 Qed.
+Lemma cond_eval_ext : forall c m b, (forall x, In x (expr_vars c) -> lookup m x = lookup b x) -> cond_eval c m = cond_eval c b.
+Proof. intros c m b H. unfold cond_eval. rewrite (cond_eval3_ext c m b H). reflexivity. Qed.
 
 Lemma concat_strs_ext : forall args m b, (forall x, In x (barg_vars args) -> lookup m x = lookup b x) -> concat_strs args m = concat_strs args b.
 Proof.
@@ -239,23 +241,91 @@ Proof.
   eapply (proj1 (compatible_spec a b Wa) C); eauto.
 Qed.
 
-Lemma bind_row_merge : forall args v a b, wf a -> wf b -> lookup a v = None ->
-  (forall x, In x (barg_vars args) -> lookup b x <> None \/ lookup a x = None) ->
-  merge_rows a (bind_row args v b) = option_map (bind_row args v) (merge_rows a b).
+Lemma econcat_ext : forall args m b, (forall x, In x (barg_vars args) -> lookup m x = lookup b x) -> econcat args m = econcat args b.
 Proof.
-  intros args v a b Wa Wb Hv Hargs. unfold merge_rows, bind_row.
-  assert (C : compatible a (insert v (concat_strs args b) b) = compatible a b).
-  { apply eq_true_iff_eq. rewrite !(compatible_spec a _ Wa). split; intros H x p q Hx Hq.
-    - eapply (H x); eauto. rewrite lookup_insert. destruct (N.eqb_spec v x); [subst; congruence | exact Hq].
-    - rewrite lookup_insert in Hq. destruct (N.eqb_spec v x); [subst; congruence | eapply (H x); eauto]. }
-  rewrite C. destruct (compatible a b) eqn:Cab; [|reflexivity]. cbn [option_map]. f_equal.
-  assert (E : concat_strs args (merge a b) = concat_strs args b).
-  { apply concat_strs_ext. intros x Hx. apply (merge_agree a b (merge a b) x Wa); auto.
-    unfold merge_rows. rewrite Cab. reflexivity. }
-  rewrite E. apply mu_ext.
-  - apply wf_merge; auto.
-  - apply wf_insert. apply wf_merge; auto.
-  - intro y. rewrite lookup_merge, !lookup_insert, lookup_merge.
-    destruct (N.eqb_spec v y); [subst; rewrite Hv; reflexivity | reflexivity].
+  induction args as [|a r IH]; intros m b H; cbn [econcat]; auto.
+  rewrite (IH m b).
+  - destruct a as [x|c]; auto. rewrite (H x); auto. cbn. left; auto.
+  - intros x Hx. apply H. unfold barg_vars. cbn [flat_map]. apply in_or_app. right. exact Hx.
+Qed.
+
+Lemma flat_map_flat_map {A B C} (f : B -> list C) (g : A -> list B) : forall l,
+  flat_map f (flat_map g l) = flat_map (fun a => flat_map f (g a)) l.
+Proof. induction l as [|a r IH]; cbn [flat_map]; [reflexivity|]. rewrite flat_map_app, IH. reflexivity. Qed.
+
+Lemma flat_map_join_r : forall (f : mu -> list mu) A B,
+  (forall a b, In a A -> In b B ->
+     flat_map (fun b' => opt_list (merge_rows a b')) (f b) = flat_map f (opt_list (merge_rows a b))) ->
+  flat_map f (join A B) = join A (flat_map f B).
+Proof.
+  intros f A B H. unfold join. rewrite flat_map_flat_map. apply flat_map_ext_in. intros a Ha.
+  assert (G : forall B', (forall b, In b B' -> In b B) ->
+                flat_map f (flat_map (fun b => opt_list (merge_rows a b)) B') = flat_map (fun b => opt_list (merge_rows a b)) (flat_map f B')).
+  { induction B' as [|b r IH]; intros I; cbn [flat_map]; auto.
+    rewrite !flat_map_app, IH by (intros; apply I; right; auto). f_equal.
+    symmetry. apply H; auto. apply I. left; auto. }
+  apply G. auto.
+Qed.
+
+(* BIND commutes with merging an incoming row in, as long as the arguments read the same on both sides: the target may be
+   bound by the incoming row - BIND then joins on it (since 1fdcd07) *)
+Lemma ebind_merge : forall args v a b, wf a -> wf b ->
+  (forall x, In x (barg_vars args) -> lookup b x <> None \/ lookup a x = None) ->
+  flat_map (fun b' => opt_list (merge_rows a b')) (ebind args v b) = flat_map (ebind args v) (opt_list (merge_rows a b)).
+Proof.
+  intros args v a b Wa Wb Hargs.
+  assert (Eargs : forall m, merge_rows a b = Some m -> econcat args m = econcat args b).
+  { intros m M. apply econcat_ext. intros x Hx. apply (merge_agree a b m x Wa M); auto. }
+  assert (Cins : forall c, lookup b v = None ->
+            (compatible a (insert v c b) = true <-> compatible a b = true /\ (forall w, lookup a v = Some w -> w = c))).
+  { intros c Lb. rewrite !(compatible_spec a _ Wa). split.
+    - intros H. split.
+      + intros x p q Hx Hq. eapply (H x); eauto. rewrite lookup_insert. destruct (N.eqb_spec v x); [subst; congruence | exact Hq].
+      + intros w Lw. eapply (H v); eauto. rewrite lookup_insert, N.eqb_refl. reflexivity.
+    - intros [H1 H2] x p q Hx Hq. rewrite lookup_insert in Hq. destruct (N.eqb_spec v x).
+      + subst x. inversion Hq; subst. apply H2; auto.
+      + eapply (H1 x); eauto. }
+  unfold ebind at 1. destruct (merge_rows a b) as [m|] eqn:M; cbn [opt_list flat_map].
+  - rewrite app_nil_r. unfold ebind. rewrite (Eargs m eq_refl).
+    assert (Wm : wf m) by exact (merge_rows_wf a b m Wa M).
+    destruct (econcat args b) as [c|]; [|cbn [flat_map]; rewrite M; reflexivity].
+    rewrite (merge_rows_lookup _ _ _ v M).
+    destruct (lookup b v) as [old|] eqn:Lb.
+    + assert (Lm : match lookup a v with Some w => Some w | None => Some old end = Some old).
+      { destruct (lookup a v) as [w|] eqn:La; [|reflexivity]. f_equal.
+        unfold merge_rows in M. destruct (compatible a b) eqn:C; [|discriminate].
+        eapply (proj1 (compatible_spec a b Wa) C); eauto. }
+      rewrite Lm. destruct (term_eqb old c); cbn [flat_map]; [rewrite M|]; reflexivity.
+    + cbn [flat_map]. rewrite app_nil_r.
+      assert (Cab : compatible a b = true) by (unfold merge_rows in M; destruct (compatible a b); [reflexivity | discriminate]).
+      assert (Em : m = merge a b) by (unfold merge_rows in M; rewrite Cab in M; inversion M; reflexivity).
+      destruct (lookup a v) as [w|] eqn:La.
+      * destruct (term_eqb w c) eqn:E.
+        -- apply term_eqb_eq in E. subst w.
+           assert (C' : compatible a (insert v c b) = true) by (apply Cins; auto; split; auto; intros w Hw; congruence).
+           unfold merge_rows. rewrite C'. cbn [opt_list]. f_equal. subst m. apply mu_ext.
+           ++ apply wf_merge; auto.
+           ++ apply wf_merge; auto.
+           ++ intro y. rewrite !lookup_merge, lookup_insert. destruct (lookup a y) eqn:Ly; [reflexivity|].
+              destruct (N.eqb_spec v y); [subst; congruence | reflexivity].
+        -- apply term_eqb_neq in E.
+           assert (C' : compatible a (insert v c b) = false).
+           { destruct (compatible a (insert v c b)) eqn:C'; [|reflexivity]. apply Cins in C'; auto. destruct C' as [_ C']. exfalso. apply E. apply C'. reflexivity. }
+           unfold merge_rows. rewrite C'. reflexivity.
+      * assert (C' : compatible a (insert v c b) = true) by (apply Cins; auto; split; auto; intros w Hw; congruence).
+        unfold merge_rows. rewrite C'. cbn [opt_list]. f_equal. subst m. apply mu_ext.
+        -- apply wf_merge; auto.
+        -- apply wf_insert. apply wf_merge; auto.
+        -- intro y. rewrite lookup_merge, !lookup_insert, lookup_merge.
+           destruct (N.eqb_spec v y); [subst; rewrite La; reflexivity | reflexivity].
+  - (* incompatible rows stay incompatible *)
+    assert (Cab : compatible a b = false) by (unfold merge_rows in M; destruct (compatible a b); [discriminate | reflexivity]).
+    destruct (econcat args b) as [c|]; [|cbn [flat_map]; rewrite M; reflexivity].
+    destruct (lookup b v) as [old|] eqn:Lb.
+    + destruct (term_eqb old c); cbn [flat_map]; [rewrite M|]; reflexivity.
+    + cbn [flat_map].
+      assert (C' : compatible a (insert v c b) = false).
+      { destruct (compatible a (insert v c b)) eqn:C'; [|reflexivity]. apply Cins in C'; auto. destruct C'. congruence. }
+      unfold merge_rows. rewrite C'. reflexivity.
 Qed.
 
